@@ -248,3 +248,15 @@ package majority
 //@ wire MajorityEvaluation
 //@   property C01 C09 C11 C20
 //@   json Value=value ComparedWith=comparedWith ComparedAlternativeValue=comparedAlternativeValue
+
+// ---- registered names (what a request must say to select this object; what error messages list)
+//@ func (*MajorityBiasListener).Identifier
+//@   property C07 C11 C20
+//@   nopanic
+//@   ensures [name] result == "majorityHeuristic"
+
+// ---- registered names (what a request must say to select this object; what error messages list)
+//@ func (*Majority).Identifier
+//@   property C01 C09 C11 C20
+//@   nopanic
+//@   ensures [name] result == "majorityHeuristic"
